@@ -1,6 +1,8 @@
 package vaxis
 
 import (
+	"time"
+
 	"git.sr.ht/~rockorager/vaxis/ansi"
 	"git.sr.ht/~rockorager/vaxis/zzverif"
 )
@@ -236,6 +238,259 @@ func VerifC03Keys() {
 				zzverif.Assert(key.Text == string([]byte{b}), "print-text-preserved")
 			}
 		}
+	}
+	zzverif.Reach("end")
+}
+
+// VerifC03Backpressure: user input is never lost when the application is slow: the event
+// queue (capacity 1 here) is full when the sequence arrives and a consumer goroutine drains it
+// only while the input side waits: the key / mouse / focus / paste event is still delivered,
+// after the event that was queued before it.
+func VerifC03Backpressure() {
+	vx := verifInputVaxis()
+	vx.queue = make(chan Event, 1)
+	vx.queue <- Redraw{}
+	// the consumer takes the queued event only after a delay (a timer; under the engine's
+	// virtual time it fires when every goroutine is blocked), i.e. while the input side is
+	// already waiting to post
+	var first Event
+	gate, done := make(chan bool), make(chan bool)
+	time.AfterFunc(20*time.Millisecond, func() { close(gate) })
+	go func() {
+		<-gate
+		first = <-vx.queue
+		close(done)
+	}()
+	b := zzverif.Byte("b")
+	kind := zzverif.Choose("kind", 10)
+	var seq ansi.Sequence
+	switch kind {
+	case 0:
+		zzverif.Assume(b >= 0x20 && b < 0x7F)
+		seq = ansi.Print{Grapheme: string([]byte{b}), Width: 1}
+	case 1:
+		zzverif.Assume(b < 0x20)
+		seq = ansi.C0(b)
+	case 2:
+		zzverif.Assume(b >= 0x20 && b < 0x7F)
+		seq = ansi.ESC{Final: rune(b)}
+	case 3:
+		zzverif.Assume(b >= 0x40 && b < 0x7F)
+		seq = ansi.SS3(b)
+	case 4:
+		zzverif.Assume(b >= 'a' && b <= 'z')
+		seq = ansi.CSI{Final: 'u', Parameters: [][]int{{int(b)}, {1, 1 + zzverif.Choose("evtype", 3)}}}
+	case 5:
+		seq = ansi.CSI{Final: '~', Parameters: [][]int{{200}}}
+	case 6:
+		seq = ansi.CSI{Final: '~', Parameters: [][]int{{201}}}
+	case 7: // SGR mouse press / release
+		final := 'M'
+		if zzverif.Bool("release") {
+			final = 'm'
+		}
+		seq = ansi.CSI{Final: final, Intermediate: []rune{'<'}, Parameters: [][]int{{int(b & 3)}, {1 + int(b>>4)}, {1}}}
+	case 8:
+		seq = ansi.CSI{Final: 'I'}
+	case 9:
+		seq = ansi.CSI{Final: 'O'}
+	}
+	vx.handleSequence(seq)
+	<-done
+	all := []Event{first}
+	for len(vx.queue) > 0 {
+		all = append(all, <-vx.queue)
+	}
+	zzverif.Assert(len(all) == 2, "input-event-not-lost-when-the-queue-is-full")
+	if len(all) == 2 {
+		_, first := all[0].(Redraw)
+		ok := false
+		switch kind {
+		case 5:
+			_, ok = all[1].(PasteStartEvent)
+		case 6:
+			_, ok = all[1].(PasteEndEvent)
+		case 7:
+			_, ok = all[1].(Mouse)
+		case 8:
+			_, ok = all[1].(FocusIn)
+		case 9:
+			_, ok = all[1].(FocusOut)
+		default:
+			_, ok = all[1].(Key)
+		}
+		zzverif.Assert(first && ok, "events-delivered-in-order")
+	}
+	zzverif.Reach("end")
+}
+
+// verifDrain empties the event queue.
+func verifDrain(vx *Vaxis) (evs []Event) {
+	for len(vx.queue) > 0 {
+		evs = append(evs, <-vx.queue)
+	}
+	return
+}
+
+// VerifC03Answers: a reply to one of Vaxis's own queries updates exactly the capability or
+// answer it reports: the colour replies reach exactly their own answer channel (when that
+// query is known to be supported) and announce exactly their own capability; a mode report
+// announces its mode exactly when the terminal reports it as set or reset (DECRPM 1 / 2; 0
+// = not recognised, 3 / 4 = permanently set / reset, i.e. not controllable); device
+// attributes announce sixel exactly when attribute 4 is listed; cursor position, clipboard,
+// colour-scheme, cursor-style and size reports carry their values.
+func VerifC03Answers() {
+	vx := verifInputVaxis()
+	verifSymCaps(vx)
+	vx.pastePending = false
+	switch zzverif.Choose("reply", 9) {
+	case 0: // OSC 4 / 10 / 11
+		which := zzverif.Choose("osc", 3)
+		payload := []string{"4;1;rgb:00/00/00", "10;rgb:00/00/00", "11;rgb:00/00/00"}[which]
+		vx.handleSequence(ansi.OSC{Payload: []rune(payload)})
+		chans := []chan string{vx.chColor, vx.chFg, vx.chBg}
+		known := []bool{vx.caps.osc4, vx.caps.osc10, vx.caps.osc11}
+		ok := true
+		for i, ch := range chans {
+			if i == which && known[i] {
+				ok = ok && len(ch) == 1 && <-ch == payload
+			} else {
+				ok = ok && len(ch) == 0
+			}
+		}
+		zzverif.Assert(ok, "colour-reply-reaches-exactly-its-own-answer-channel")
+		evs := verifDrain(vx)
+		one := len(evs) == 1
+		if one {
+			switch which {
+			case 0:
+				_, one = evs[0].(capabilityOsc4)
+			case 1:
+				_, one = evs[0].(capabilityOsc10)
+			case 2:
+				_, one = evs[0].(capabilityOsc11)
+			}
+		}
+		zzverif.Assert(one, "colour-reply-announces-exactly-its-own-capability")
+	case 1: // DECRPM
+		mode := []int{2026, 2027, 2031, 2004, 1016}[zzverif.Choose("mode", 5)]
+		status := int(zzverif.Byte("status"))
+		vx.handleSequence(ansi.CSI{Final: 'y', Intermediate: []rune{'?', '$'}, Parameters: [][]int{{mode}, {status}}})
+		evs := verifDrain(vx)
+		supported := status == 1 || status == 2
+		ok := len(evs) == 0
+		if supported && mode >= 2026 {
+			ok = len(evs) == 1
+			if ok {
+				switch mode {
+				case 2026:
+					_, ok = evs[0].(synchronizedUpdates)
+				case 2027:
+					_, ok = evs[0].(unicodeCoreCap)
+				case 2031:
+					_, ok = evs[0].(notifyColorChange)
+				}
+			}
+		}
+		zzverif.Assert(ok, "mode-report-announces-its-mode-iff-set-or-reset")
+	case 2: // DA1
+		n := zzverif.Choose("nattr", 4)
+		var params [][]int
+		has4 := false
+		for i := 0; i < n; i++ {
+			a := int(zzverif.Byte("attr"))
+			params = append(params, []int{a})
+			has4 = has4 || a == 4
+		}
+		vx.handleSequence(ansi.CSI{Final: 'c', Intermediate: []rune{'?'}, Parameters: params})
+		evs := verifDrain(vx)
+		sixel, da1, other := 0, 0, 0
+		for i, e := range evs {
+			switch e.(type) {
+			case capabilitySixel:
+				sixel++
+			case primaryDeviceAttribute:
+				da1++
+				if i != len(evs)-1 {
+					other++ // the end-of-replies marker must come last
+				}
+			default:
+				other++
+			}
+		}
+		zzverif.Assert((sixel > 0) == has4 && da1 == 1 && other == 0, "device-attributes-announce-sixel-iff-listed-then-the-marker")
+	case 3: // cursor position report with a requester waiting
+		r, c := int(zzverif.Byte("r")), int(zzverif.Byte("c"))
+		atomicStore(&vx.reqCursorPos, true)
+		var got [2]int
+		done := make(chan bool)
+		go func() { got = <-vx.chCursorPos; close(done) }()
+		vx.handleSequence(ansi.CSI{Final: 'R', Parameters: [][]int{{r}, {c}}})
+		<-done
+		zzverif.Assert(got == [2]int{r, c} && !atomicLoad(&vx.reqCursorPos) && len(vx.queue) == 0, "cursor-position-report-answers-the-request-only")
+	case 4: // clipboard with a requester waiting
+		var got string
+		done := make(chan bool)
+		go func() { got = <-vx.chClipboard; close(done) }()
+		vx.handleSequence(ansi.OSC{Payload: []rune("52;c;aGk=")})
+		<-done
+		zzverif.Assert(got == "hi" && len(vx.queue) == 0, "clipboard-reply-decoded")
+	case 5: // colour scheme report
+		m := int(zzverif.Byte("scheme"))
+		vx.handleSequence(ansi.CSI{Final: 'n', Intermediate: []rune{'?'}, Parameters: [][]int{{997}, {m}}})
+		evs := verifDrain(vx)
+		ok := len(evs) == 1
+		if ok {
+			u, is := evs[0].(ColorThemeUpdate)
+			ok = is && int(u.Mode) == m
+		}
+		zzverif.Assert(ok, "colour-scheme-report-carries-its-mode")
+	case 6: // DECRQSS cursor style
+		d := zzverif.Byte("style")
+		zzverif.Assume(d >= 0x20 && d < 0x7F)
+		before := vx.userCursorStyle
+		vx.handleSequence(ansi.DCS{Final: 'r', Intermediate: []rune{'$'}, Parameters: []int{1}, Data: []rune{rune(d), ' ', 'q'}})
+		want := before
+		if d >= '0' && d <= '6' {
+			want = CursorStyle(d - '0')
+		}
+		zzverif.Assert(vx.userCursorStyle == want && len(vx.queue) == 0, "cursor-style-report-sets-the-user-style")
+	case 7: // XTGETTCAP
+		valid := zzverif.Bool("valid")
+		which := zzverif.Choose("cap", 3)
+		data := []string{"524742", "536D756C78=1", "544E=78"}[which] // RGB, Smulx=1, TN=x
+		p := 0
+		if valid {
+			p = 1
+		}
+		vx.handleSequence(ansi.DCS{Final: 'r', Intermediate: []rune{'+'}, Parameters: []int{p}, Data: []rune(data)})
+		evs := verifDrain(vx)
+		ok := len(evs) == 0
+		if valid && which < 2 {
+			ok = len(evs) == 1
+			if ok && which == 0 {
+				_, ok = evs[0].(truecolor)
+			} else if ok {
+				_, ok = evs[0].(styledUnderlines)
+			}
+		}
+		zzverif.Assert(ok, "termcap-reply-announces-exactly-its-capability-when-valid")
+	case 8: // text area size in cells / pixels
+		h, w := int(zzverif.Byte("h")), int(zzverif.Byte("w"))
+		pix := zzverif.Bool("pixels")
+		typ := 8
+		if pix {
+			typ = 4
+		}
+		before := vx.nextSize
+		vx.handleSequence(ansi.CSI{Final: 't', Parameters: [][]int{{typ}, {h}, {w}}})
+		want := before
+		if pix {
+			want.XPixel, want.YPixel = w, h
+		} else {
+			want.Cols, want.Rows = w, h
+		}
+		zzverif.Assert(vx.nextSize == want, "size-report-updates-exactly-its-dimensions")
 	}
 	zzverif.Reach("end")
 }
